@@ -44,6 +44,14 @@ def main():
         from vlib import plugin, xh_state, entry
         from vlib.xh_state import STATE
 
+        # Reals stand in for floats (stated assumption of every check that meets a float): CrossHair
+        # caps such runs at 'unknown'; we lift the cap and count how often a real-based float was made.
+        realfloat = [0]
+
+        def _no_cap(self):
+            realfloat[0] += 1
+
+        ss.StateSpace.cap_result_at_unknown = _no_cap
         seed = int(os.environ.get("VERIF_SEED", "0") or 0)
         if seed:
             ss.newrandom = lambda: random.Random(1801 + seed)  # upstream: fixed constant
@@ -99,6 +107,7 @@ def main():
         res["functions_encoded"] = sorted(f"{f}:{q}" for f, q in plugin.ENCODED)
         res["fallthrough"] = sorted(fallthrough)
         res["rebound"] = len(rebound)
+        res["real_for_float_values"] = realfloat[0]
     except BaseException as e:  # noqa
         res["status"] = "ERROR"
         res["messages"].append("worker exception: " + "".join(traceback.format_exception(e))[-3000:])
